@@ -147,6 +147,15 @@ pub fn run_session(mut src: Source, supported: Arc<BTreeSet<String>>, properties
     log.push(format!("#{} {}  => {}  [{}{}]", i, text, outcome.show(), match verdict.must { Must::Ok => "must-ok", Must::Err => "must-err", Must::Either => "either" }, verdict.fault.as_ref().map(|f| format!(" {}", f)).unwrap_or_default()));
 
     let mut viol = |class: &str, detail: String, expected: String, observed_s: String| -> Violation {
+      // the target itself as the vector source of an indexed (op-)assignment is a recorded finding of its
+      // own (elements are read after they were overwritten; the suite pins it): whatever follows from
+      // that reading — another element value, an overflow that the old values would (not) have produced —
+      // carries its tag, so that nothing else hides behind it and it hides behind nothing else
+      let self_source = match &op { Op::IdxAssign { name, e: Expr::Var(n), .. } | Op::OpAssign { name, sub: Some(_), e: Expr::Var(n), .. } => n == name, _ => false };
+      let detail = if self_source && ["missing-rejection", "wrong-rejection", "torn-write", "readback-mismatch"].contains(&class) && !detail.starts_with("self-source") {
+        let form = match &op { Op::IdxAssign { sub, .. } | Op::OpAssign { sub: Some(sub), .. } => sub.form(), _ => String::new() };
+        format!("self-source|{}", form)
+      } else { detail };
       Violation {
         properties: properties_of(class, &op),
         class: class.to_string(),
